@@ -380,6 +380,8 @@ belt_fronts!(belt_fronts_w2_n3, 80, U2, 3, 0u128);
 cts_cbc_fronts!(cts_cbc_whole_b2_w2_n1, 48, U2, 2, U2, 1);
 cts_cbc_fronts!(cts_cbc_whole_b2_w2_n2, 48, U2, 2, U2, 2);
 cts_cbc_fronts!(cts_cbc_whole_b2_w2_n3, 48, U2, 2, U2, 3);
+cts_cbc_fronts!(cts_cbc_whole_b1_w2_n7, 64, U1, 1, U2, 7);
+cts_ecb_fronts!(cts_ecb_whole_b1_w2_n7, 64, U1, 1, U2, 7);
 cts_ecb_fronts!(cts_ecb_whole_b2_w2_n1, 48, U2, 2, U2, 1);
 cts_ecb_fronts!(cts_ecb_whole_b2_w2_n2, 48, U2, 2, U2, 2);
 cts_ecb_fronts!(cts_ecb_whole_b2_w2_n3, 48, U2, 2, U2, 3);
